@@ -163,6 +163,24 @@ func (g *gen) sessClose() {
 		g.p("Definition %s : bytes := hex \"%s\".\n", c[1], hexOf([]byte(v)))
 	}
 
+	// Send records the opening element's name in the stream info (Close reads it)
+	sendSetsName := false
+	if fd := funcDecl(str, "Send"); fd != nil && fd.Body != nil {
+		ast.Inspect(fd.Body, func(m ast.Node) bool {
+			if as, is := m.(*ast.AssignStmt); is {
+				for _, l := range as.Lhs {
+					if c := scSelChain(l); c != nil && scEndsWith(c, "streamData", "Name") {
+						sendSetsName = true
+					}
+				}
+			}
+			return true
+		})
+	} else {
+		g.errs = append(g.errs, "internal/stream/stream.go: func Send not found")
+	}
+	g.p("Definition sc_send_records_opening_element : bool := %v.\n", sendSetsName)
+
 	// all function declarations of session.go
 	var fds []*ast.FuncDecl
 	for _, d := range sess.Decls {
